@@ -251,8 +251,16 @@ fn refusal_case(cfg: &Config, tmp: &std::path::Path, idx: u64, r: &mut Rng, st: 
         }
         2 => {
             class_name = "mismatched-heads";
-            // a second partial definition of the same predicate with other variable names
-            let vars: Vec<String> = (0..atom.terms.len()).map(|i| format!("W{}", i + 1)).collect();
+            // a second partial definition of the same predicate with other variable names, or
+            // with the same names in another order (p(V1,V2) next to p(V2,V1))
+            let mut vars: Vec<String> = (0..atom.terms.len()).map(|i| format!("W{}", i + 1)).collect();
+            if atom.terms.len() >= 2 && r.chance(1, 2) {
+                let own: Vec<String> = atom.terms.iter().filter_map(|t| match t { fol::GeneralTerm::Variable(v) => Some(v.clone()), _ => None }).collect();
+                if own.len() == atom.terms.len() {
+                    vars = own;
+                    vars.rotate_left(1);
+                }
+            }
             let a = fol::Atom { predicate_symbol: atom.predicate_symbol.clone(), terms: vars.iter().map(|v| fol::GeneralTerm::Variable(v.clone())).collect() };
             let body: fol::Formula = format!("aux({})", vars.join(", ")).parse().unwrap();
             let q = fol::Quantification { quantifier: fol::Quantifier::Forall, variables: vars.iter().map(|v| fol::Variable { name: v.clone(), sort: fol::Sort::General }).collect() };
